@@ -197,6 +197,12 @@ theorem jstore_reads_agree_full_false : ¬ jstore_reads_agree_full := by
   revert this
   decide
 
+open DoltVerif.NbsStore in
+/-- as long as no flatten has happened, iterating the journal source reports written chunks only,
+each under its own address -/
+theorem jstore_iterate_partial (ops : List JOp) (hn : ∀ op ∈ ops, op.isFlatten = false) (p : Addr × NbsStore.Bytes)
+    (hp : p ∈ (jrun ops).j.iterate) : p ∈ jwritten ops := jstore_iterate_sound ops hn p hp
+
 /-- full iteration of the journal source reports only written chunks … -/
 def jstore_iterate_full : Prop :=
   ∀ (ops : List NbsStore.JOp) (p : Addr × NbsStore.Bytes), p ∈ (NbsStore.jrun ops).j.iterate → p ∈ NbsStore.jwritten ops
